@@ -179,7 +179,8 @@ func checkC06(p *Prog, res *Result, tier string) {
 			res.add("C06-R3", o.Rule+" "+o.Construct, o.Status, o.Pos, o.Detail)
 		}
 		// an unknown outcome must reach the sequencer as such (C09-R6) and stay queued until repaired (C09-R3)
-		if o.Rule == "C09-R6" || (o.Rule == "C09-R3" && strings.Contains(o.Construct, "head not popped")) {
+		// .. and the compaction must look at the committed revision before it looks at the queue (reader side of C09-R1)
+		if o.Rule == "C09-R6" || (o.Rule == "C09-R3" && strings.Contains(o.Construct, "head not popped")) || (o.Rule == "C09-R2" && strings.Contains(o.Construct, "read before")) {
 			res.add("C06-R3", o.Rule+" "+o.Construct, o.Status, o.Pos, o.Detail)
 		}
 	}
